@@ -229,7 +229,7 @@ def a_judge(case, ob):
                 bad.append(('a write that had to be refused (the file %s) was reported as success (message class %s, quit=%s)'
                             % (tr['protected'][cur], ob['cls'].get(k), gone), stale_autowrite(bufs[cur], prev[cur])))
         # what the editor wrote during the step
-        went = gone or (ob['cls'].get(k) == 'ok') or (kind in ('e', 'b', 'n') and sn is not None and sn['cur'] != cur) or (kind == '!' and ob['ran'].get(k))
+        went = gone or (kind == 'w' and ob['cls'].get(k) == 'ok') or (kind in ('e', 'b', 'n') and sn is not None and sn['cur'] != cur) or (kind == '!' and ob['ran'].get(k))
         for n in sorted(bufs):
             cs = [c for c in calls if c['name'] == n]
             if not cs:
@@ -241,6 +241,12 @@ def a_judge(case, ob):
                 bufs[n]['dirty'] = False
             elif went and not any(c['err'] for c in cs) and (n != cur or kind != 'w' or arg in ('', '%')):
                 bad.append(('`%s` went through and wrote the file of buffer %s, which does not hold exactly the buffer\'s lines' % (st[1], n), None))
+            else:
+                if any(c['op'] == 'write' and not c['err'] for c in cs):
+                    bufs[n]['sync'] = post[n]          # the editor itself wrote (part of) the file last: what is there now is its own doing
+                if went and any(c['err'] for c in cs) and not bang:
+                    bad.append(('an open/write/close error was injected into the save of buffer %s and consumed, yet `%s` went through '
+                                '(message class %s, editor gone=%s)' % (n, st[1], ob['cls'].get(k), gone), None))
         if gone and not bang:
             for n in sorted(bufs):
                 if bufs[n]['dirty'] and (ob['final'][n] is None or ob['final'][n][1] != bufs[n]['text']):
@@ -388,6 +394,45 @@ def a_random(rng, n):
     return out
 
 
+# ---------------------------------------------------------------------------------------------- faults inside the autowrite
+def a_fault_bases():
+    """sessions whose leave-buffer command autowrites (option on, file untouched by others): the dry run gives the call indices"""
+    out = []
+    for lv in ('q', 'e b', 'n', '!touch ran.%d', 'b 2', 'wq', 'xa', 'w'):
+        for bg in (False, True):
+            steps = [['cmd', 'e b']]
+            if bg:
+                steps.append(['edit', 'B EDITED'])
+            steps += [['cmd', 'e! a'], ['set', 'aw'], ['edit', 'EDITED']]
+            steps.append(['cmd', lv.replace('%d', str(len(steps)))])
+            steps += [['cmd', 'e! a'], ['set', 'noaw'], ['cmd', 'q'], ['cmd', 'w'], ['cmd', 'e! b'], ['cmd', 'w'], ['cmd', 'q']]
+            c = a_case(['a', 'b'], {'a': 'old', 'b': 'old', 'c': 'old'}, steps,
+                       'fault in the save: aw, %s%s, then noaw, q, w, q' % (lv.split(' ran')[0], ', background buffer modified' if bg else ''))
+            c['fstep'] = steps.index(['set', 'aw']) + 2
+            out.append(c)
+    return out
+
+
+def a_fault_cases(bases, dry):
+    out = []
+    for c, ob in zip(bases, dry):
+        k = c['fstep']
+        pre, post = ob['snaps'].get(k - 1), ob['snaps'].get(k) or ob['final']
+        if pre is None or post is None:
+            continue
+        cs = [x for x in ob['calls'][pre['nlog']:post['nlog']] if x['i'] is not None]
+        for j, x in enumerate(cs):
+            for kind, arg in (('err', 5), ('err', 28), ('short', 1)):
+                if kind == 'short' and x['op'] != 'write':
+                    continue
+                f = dict(c)
+                f['sched'] = [[x['i'], kind, arg]]
+                f['fault'] = {'step': k, 'off': j, 'kind': kind, 'arg': arg, 'op': x['op'], 'name': x['name']}
+                f['tag'] = c['tag'] + ', %s %s at the %s of %s' % (kind, arg, x['op'], x['name'])
+                out.append(f)
+    return out
+
+
 # ---------------------------------------------------------------------------------------------- the model side (driver request aw)
 def a_model_request(case):
     """-> (request line, index of the model's answer word for every session step)"""
@@ -424,9 +469,11 @@ def a_model_request(case):
             else:
                 steps.append('X')
         at.append(len(steps) - 1)
-    req = 'aw names=%d files=%s args=%s steps=%s' % (
+    fl = case.get('fault')
+    req = 'aw names=%d files=%s args=%s fault=%s steps=%s' % (
         len(AN), ','.join('%d:%s:%d' % (ix[n], vlib.hx(a_c0(n)), A_MODEL_STAMP[st]) for n, st in sorted(case['files'].items())) or '-',
-        ','.join(str(ix[n]) for n in case['args']), ';'.join(steps))
+        ','.join(str(ix[n]) for n in case['args']),
+        '%d:%d:%s:%d' % (at[fl['step']], fl['off'], fl['kind'][0], fl['arg']) if fl else '-', ';'.join(steps))
     return req, at
 
 
@@ -505,6 +552,14 @@ def run_aw(ctx, vi, model, awork):
         if ob['crash']:
             ob = a_run(vi, case, timeout=90)
         return ob
+    if not ctx.replay:
+        fb = a_fault_bases()
+        fc = a_fault_cases(fb, vlib.pmap(one, fb))
+        res.extra['autowrite_stream_fault_cases_enumerated'] = len(fc)
+        if ctx.quick:
+            ctx.rng.fork('autowrite faults').shuffle(fc)
+            fc = fc[:150]
+        awork = awork + fb + fc
     obs = vlib.pmap(one, awork)
     out_m = None
     if model:
